@@ -2500,14 +2500,21 @@ class RGsV(Sym):
         if ctx_ is None or ctx_[0] != "main":
             raise Unsupported("loop over the row groups outside the column loop of _dtypes")
         k = ctx_[1]
-        carried = [v for v in assigned if v in p.env and v != "st"]
-        flags = [v for v in carried if isinstance(p.env[v], (PyI, PyB))]
+        # the loop-carried flag: the local the body sets to a CONSTANT (num_nulls = True), whatever value it has when the scan starts - a
+        # value left over from the previous column (reset hoisted out of / removed from the column loop) must be refuted, not out of reach
+        flags = sorted({t.id for s_ in st.body for n_ in ast.walk(s_) if isinstance(n_, ast.Assign) and isinstance(n_.value, ast.Constant)
+                        for t in n_.targets if isinstance(t, ast.Name)})
         if len(flags) != 1:
-            raise Unsupported(f"null scan: expected one loop-carried flag, found {flags}")
+            raise Unsupported(f"null scan: expected one loop-carried flag set to a constant, found {flags}")
         fl = flags[0]
+        if fl not in p.env:
+            eng.oblige(p, "dtypes.null_scan.starts_without_nulls_found", "inv", z3.BoolVal(False), st,
+                       f"the flag {fl!r} is not bound when the scan of this column starts")
+            p.env[fl] = Opaque(f"unbound_{fl}!{next(_cnt)}")
         outs = []
         eng.oblige(p, "dtypes.null_scan.starts_without_nulls_found", "inv", z3.Not(eng.truth(p.env[fl], p)), st,
-                   "the scan over the row groups of a column starts with the flag falsy (nothing carried over from the previous column)")
+                   "posed INSIDE the arbitrary column iteration (every local the column loop assigns is havoc'd at the top of its body): when the scan "
+                   "over the row groups of column k starts the flag is falsy - nothing is carried over from column k-1")
 
         def havoc(q, flag):
             for v in assigned:
